@@ -2,10 +2,10 @@ package main
 
 import (
 	"fmt"
-	"os"
 	"go/constant"
 	"go/token"
 	"go/types"
+	"os"
 	"regexp/syntax"
 	"sort"
 	"strings"
@@ -313,7 +313,7 @@ func init() {
 
 func init() {
 	register(&Rule{
-		ID: "C13.R9", Props: []string{"C13"}, Min: 5,
+		ID: "C13.R9", Props: []string{"C13", "C14"}, Min: 5, // C14: the attribute is emitted with the value's string form, not with source text
 		Doc: "a bound attribute's value is always computed by an evaluator: no return of evalBoundAttribute hands back the expression's own text (the parameter, or a piece cut out of it by slicing / trimming) — every non-empty result comes out of the interpolator, the object-literal evaluator, the pipe interpreter or the scope resolver, which are the ones every other position uses. A syntactic shortcut that answers from the source text (`'a' + x + 'b'` looks like one quoted literal) makes the same expression mean something else in an attribute than in {{ }} or v-if",
 		Run: func(p *Prog, c *Ctx) {
 			for _, fn := range []*ssa.Function{p.MustFn("(*vuego.Vue).evalBoundAttribute")} {
@@ -1018,7 +1018,7 @@ func init() {
 
 func init() {
 	register(&Rule{
-		ID: "C08.R10", Props: []string{"C08", "C17"}, Min: 1,
+		ID: "C08.R10", Props: []string{"C08", "C17", "C04"}, Min: 1, // C04: a loop variable shadows a root variable of the same name for the whole path
 		Doc: "the root data is the last resort for a name, never a second opinion: wherever a Stack method looks a name up in the root data (ResolveValue on the rootData field — the originally filled struct or map, the lowest-precedence source), no path leads there from a successful scope lookup (a hit in one of the scope maps, or Lookup reporting ok). A path that falls back to the root data after the scopes did define the name — e.g. because walking the rest of a dotted path failed — answers from a source that Assign or front-matter had overridden",
 		Run: func(p *Prog, c *Ctx) {
 			n := 0
@@ -1029,10 +1029,17 @@ func init() {
 				// reads of rootData that feed a by-name lookup
 				var reads []ssa.Instruction
 				for _, site := range callsIn(fn) {
-					if !strings.HasSuffix(calleeName(site.Common()), "reflect.ResolveValue") {
+					nm := calleeName(site.Common())
+					if !strings.HasSuffix(nm, "reflect.ResolveValue") && nm != "(*vuego.Stack).resolveStep" {
 						continue
 					}
-					for _, o := range p.origins(site.Common().Args[0], OriginOpts{}) {
+					// the value that is walked: the first argument (after the receiver of a method)
+					args := site.Common().Args
+					data := args[0]
+					if nm == "(*vuego.Stack).resolveStep" && len(args) > 1 {
+						data = args[1]
+					}
+					for _, o := range p.origins(data, OriginOpts{}) {
 						if f := loadedField(o); f != nil && fieldIs(f, "rootData") {
 							reads = append(reads, site)
 						}
@@ -1552,9 +1559,12 @@ func holdsNode(t types.Type, depth int) bool {
 func init() {
 	register(&Rule{
 		ID: "C03.R8", Props: []string{"C03", "C14", "C04", "C05"}, Min: 2,
-		Doc: "one implementation of element evaluation: whichever function applies one of the per-element directive handlers (evalVHtml, evalVText, evalVShow, evalAttributes) to an element applies all four, to the same element, in that order; and whichever function recognises a <template> element and goes on to evaluate its children does so through evalTemplate (include, :required, bindings). A second, partial copy of the element path — as the conditional chain used to have for the member it selected — makes v-text, v-show or include silently disappear from an element just because it also carries v-if / v-else",
+		Doc: "one implementation of element evaluation: whichever function applies one of the per-element directive handlers (evalVHtml, evalVText, evalAttributes, evalVShow) to an element applies all four, to the same element, in that order — v-show last, so that display:none is applied to the style the bindings produced and a :style that sets display cannot show a hidden element; and whichever function recognises a <template> element and goes on to evaluate its children does so through evalTemplate (include, :required, bindings). A second, partial copy of the element path — as the conditional chain used to have for the member it selected — makes v-text, v-show or include silently disappear from an element just because it also carries v-if / v-else",
 		Run: func(p *Prog, c *Ctx) {
-			handlers := []string{"(*vuego.Vue).evalVHtml", "(*vuego.Vue).evalVText", "(*vuego.Vue).evalVShow", "(*vuego.Vue).evalAttributes"}
+			// Rules whose premise is this order, to be re-read whenever it changes: C01.R8 (what the handlers that run
+			// *before* the attribute pass may store into attributes), C01.R10 (what a handler that runs *after* it
+			// may evaluate), C14.R6 (v-show's write), C01.R1 (the carriers the attribute pass skips).
+			handlers := []string{"(*vuego.Vue).evalVHtml", "(*vuego.Vue).evalVText", "(*vuego.Vue).evalAttributes", "(*vuego.Vue).evalVShow"}
 			idx := map[string]int{}
 			for i, h := range handlers {
 				idx[h] = i
@@ -1625,7 +1635,7 @@ func init() {
 							inOrder = false
 						}
 					}
-					c.check(inOrder, key, p.instrPos(apps[0].site), "v-html, v-text, v-show, attributes — in this order, on the same element", "the per-element handlers are not applied in the order v-html, v-text, v-show, attributes on every path")
+					c.check(inOrder, key, p.instrPos(apps[0].site), "v-html, v-text, attributes, v-show — in this order, on the same element", "the per-element handlers are not applied in the order v-html, v-text, attributes, v-show on every path (v-show before the bindings lets :style overwrite display:none)")
 				}
 			}
 			// <template> elements
